@@ -20,7 +20,9 @@ Next ==
               ELSE Append(bad, [i |-> i, expected |-> ref, asis |-> (c.obs = MachineRelations(c.doc, AllDevs)),
                                 \* documents with a structured filler: is it the flag-instead-of-counter machine?
                                 flag |-> ((\E j \in 1..Len(c.doc) : HasS(c.doc[j]))
-                                          /\ c.obs = MachineRelations(c.doc, ModelDevs))])
+                                          /\ c.obs = MachineRelations(c.doc, ModelDevs)),
+                                \* is it the machine whose heading loop needs an open section?
+                                nest |-> (c.obs = MachineRelations(c.doc, NestDevs))])
   /\ i' = i + 1
 Spec == Init /\ [][Next]_<<i, bad>>
 Verdict == (i = Len(Cases) + 1) => PrintT(<<"VERDICT", ToJson([consumed |-> i - 1, bad |-> bad])>>)
